@@ -189,6 +189,10 @@ func RunCase(o *Out, specJSON string, callables map[string]any) {
 				Violations: []Violation{{Kind: "unassigned_variable", Method: m.Name, Detail: "function variable is nil after init()"}}})
 			continue
 		}
+		if hasRole(m.Roles, "target") {
+			runUpdate(o, &spec, r, m)
+			continue
+		}
 		runMethod(o, &spec, r, m)
 	}
 }
